@@ -151,45 +151,50 @@ Definition aattr_list (l : list N) (len : N) : ares (aattr_value * list N) aattr
   if negb (len mod 2 =? 0) then AErr (AAListLength len)
   else match atake_e l len with AOk (b, r) => AOk (AvList b, r) | AErr e => AErr e end.
 
+(* the payload that follows the type code `ty` and the length octet `len` *)
+Definition aattr_payload (ty len : N) (l2 : list N) : ares (aattr_value * list N) aattr_err :=
+  if ty =? attr_visible_string then
+    match atake_e l2 len with
+    | AOk (b, r) => if autf8 b then AOk (AvVStr b, r) else AErr AAVisibleString
+    | AErr e => AErr e
+    end
+  else if ty =? attr_unsigned_int then
+    if (len =? 1) || (len =? 2) || (len =? 4) then
+      match aread_n len l2 with AOk (x, r) => AOk (AvUInt x, r) | AErr e => AErr e end
+    else AErr (AAIntLength len)
+  else if ty =? attr_signed_int then
+    if (len =? 1) || (len =? 4) then
+      match aread_n len l2 with AOk (x, r) => AOk (AvInt x, r) | AErr e => AErr e end
+    else if len =? 2 then
+      match aread_n 2 l2 with AOk (x, r) => AOk (AvInt (asext16 x), r) | AErr e => AErr e end
+    else AErr (AAIntLength len)
+  else if ty =? attr_floating_point then
+    if len =? 4 then match aread_n 4 l2 with AOk (x, r) => AOk (AvF32 x, r) | AErr e => AErr e end
+    else if len =? 8 then match aread_n 8 l2 with AOk (x, r) => AOk (AvF64 x, r) | AErr e => AErr e end
+    else AErr (AAFloatLength len)
+  else if ty =? attr_octet_string then
+    match atake_e l2 len with AOk (b, r) => AOk (AvOStr b, r) | AErr e => AErr e end
+  else if ty =? attr_bit_string then
+    match atake_e l2 len with AOk (b, r) => AOk (AvBStr b, r) | AErr e => AErr e end
+  else if ty =? attr_dnp3_time then
+    if len =? 6 then match aread_n 6 l2 with AOk (x, r) => AOk (AvTime x, r) | AErr e => AErr e end
+    else AErr (AATimeLength len)
+  else if ty =? attr_attr_list then aattr_list l2 len
+  else aattr_list l2 (len + 256).
+
+Definition aattr_types : list N :=
+  [attr_visible_string; attr_unsigned_int; attr_signed_int; attr_floating_point;
+   attr_octet_string; attr_bit_string; attr_dnp3_time; attr_attr_list; attr_ext_attr_list].
+
 Definition aparse_attr_value (l : list N) : ares (aattr_value * list N) aattr_err :=
   match l with
   | [] => AErr AARead
   | ty :: l1 =>
-      if negb (amem ty [attr_visible_string; attr_unsigned_int; attr_signed_int; attr_floating_point;
-                        attr_octet_string; attr_bit_string; attr_dnp3_time; attr_attr_list; attr_ext_attr_list])
-      then AErr (AAUnknownType ty)
+      if negb (amem ty aattr_types) then AErr (AAUnknownType ty)
       else match l1 with
-      | [] => AErr AARead
-      | len :: l2 =>
-          if ty =? attr_visible_string then
-            match atake_e l2 len with
-            | AOk (b, r) => if autf8 b then AOk (AvVStr b, r) else AErr AAVisibleString
-            | AErr e => AErr e
-            end
-          else if ty =? attr_unsigned_int then
-            if (len =? 1) || (len =? 2) || (len =? 4) then
-              match aread_n len l2 with AOk (x, r) => AOk (AvUInt x, r) | AErr e => AErr e end
-            else AErr (AAIntLength len)
-          else if ty =? attr_signed_int then
-            if (len =? 1) || (len =? 4) then
-              match aread_n len l2 with AOk (x, r) => AOk (AvInt x, r) | AErr e => AErr e end
-            else if len =? 2 then
-              match aread_n 2 l2 with AOk (x, r) => AOk (AvInt (asext16 x), r) | AErr e => AErr e end
-            else AErr (AAIntLength len)
-          else if ty =? attr_floating_point then
-            if len =? 4 then match aread_n 4 l2 with AOk (x, r) => AOk (AvF32 x, r) | AErr e => AErr e end
-            else if len =? 8 then match aread_n 8 l2 with AOk (x, r) => AOk (AvF64 x, r) | AErr e => AErr e end
-            else AErr (AAFloatLength len)
-          else if ty =? attr_octet_string then
-            match atake_e l2 len with AOk (b, r) => AOk (AvOStr b, r) | AErr e => AErr e end
-          else if ty =? attr_bit_string then
-            match atake_e l2 len with AOk (b, r) => AOk (AvBStr b, r) | AErr e => AErr e end
-          else if ty =? attr_dnp3_time then
-            if len =? 6 then match aread_n 6 l2 with AOk (x, r) => AOk (AvTime x, r) | AErr e => AErr e end
-            else AErr (AATimeLength len)
-          else if ty =? attr_attr_list then aattr_list l2 len
-          else aattr_list l2 (len + 256)
-      end
+           | [] => AErr AARead
+           | len :: l2 => aattr_payload ty len l2
+           end
   end.
 
 (* VariationListIter: (variation, properties & 1) pairs *)
